@@ -414,6 +414,100 @@ fn parquet_async(r: &mut Runner, sink: GuardSink) {
     r.always("close", move || block_on(w.close()).map(|_| ()));
 }
 
+/// Batch sequences with zero-row batches: SEQ 1 = [empty], 2 = [empty, b1], 3 = [b1, empty]. A writer that
+/// emits a header or schema before the first row has to push it to the sink (and report a fault there)
+/// also when no row follows.
+fn seq_batches(seq: u8, dict: bool) -> Vec<RecordBatch> {
+    let (b1, _) = batches(dict);
+    let e = b1.slice(0, 0);
+    match seq {
+        1 => vec![e],
+        2 => vec![e, b1],
+        _ => vec![b1, e],
+    }
+}
+const WRITE_STEPS: [&str; 2] = ["write1", "write2"];
+fn csv_seq<const SEQ: u8>(r: &mut Runner, sink: GuardSink) {
+    let bs = seq_batches(SEQ, false);
+    let mut w = arrow_csv::WriterBuilder::new().with_header(true).build(sink);
+    for (i, b) in bs.iter().enumerate() {
+        r.step(WRITE_STEPS[i], || w.write(b));
+    }
+    r.always("into_inner", move || Ok::<(), NoErr>(drop(w.into_inner())));
+}
+fn csv_seq_close<const SEQ: u8>(r: &mut Runner, sink: GuardSink) {
+    use arrow_array::RecordBatchWriter;
+    let bs = seq_batches(SEQ, false);
+    let mut w = arrow_csv::WriterBuilder::new().with_header(true).build(sink);
+    for (i, b) in bs.iter().enumerate() {
+        r.step(WRITE_STEPS[i], || w.write(b));
+    }
+    r.always("close", move || w.close());
+}
+fn json_lines_seq<const SEQ: u8>(r: &mut Runner, sink: GuardSink) {
+    let bs = seq_batches(SEQ, false);
+    let mut w = arrow_json::LineDelimitedWriter::new(sink);
+    for (i, b) in bs.iter().enumerate() {
+        r.step(WRITE_STEPS[i], || w.write(b));
+    }
+    r.step("finish", || w.finish());
+    r.always("into_inner", move || Ok::<(), NoErr>(drop(w.into_inner())));
+}
+fn json_array_seq<const SEQ: u8>(r: &mut Runner, sink: GuardSink) {
+    let bs = seq_batches(SEQ, false);
+    let mut w = arrow_json::ArrayWriter::new(sink);
+    for (i, b) in bs.iter().enumerate() {
+        r.step(WRITE_STEPS[i], || w.write(b));
+    }
+    r.step("finish", || w.finish());
+    r.always("into_inner", move || Ok::<(), NoErr>(drop(w.into_inner())));
+}
+fn ipc_stream_seq<const SEQ: u8>(r: &mut Runner, sink: GuardSink) {
+    let bs = seq_batches(SEQ, true);
+    let Some(mut w) = r.step("new", || arrow_ipc::writer::StreamWriter::try_new(sink, &bs[0].schema())) else { return };
+    for (i, b) in bs.iter().enumerate() {
+        r.step(WRITE_STEPS[i], || w.write(b));
+    }
+    r.step("finish", || w.finish());
+    r.always("into_inner", move || w.into_inner().map(|_| ()));
+}
+fn ipc_file_seq<const SEQ: u8>(r: &mut Runner, sink: GuardSink) {
+    let bs = seq_batches(SEQ, true);
+    let Some(mut w) = r.step("new", || arrow_ipc::writer::FileWriter::try_new(sink, &bs[0].schema())) else { return };
+    for (i, b) in bs.iter().enumerate() {
+        r.step(WRITE_STEPS[i], || w.write(b));
+    }
+    r.step("finish", || w.finish());
+    r.always("into_inner", move || w.into_inner().map(|_| ()));
+}
+fn parquet_arrow_seq<const SEQ: u8>(r: &mut Runner, sink: GuardSink) {
+    let bs = seq_batches(SEQ, false);
+    let Some(mut w) = r.step("new", || parquet::arrow::ArrowWriter::try_new(sink, bs[0].schema(), Some(pq_props()))) else { return };
+    for (i, b) in bs.iter().enumerate() {
+        r.step(WRITE_STEPS[i], || w.write(b));
+    }
+    r.always("close", move || w.close().map(|_| ()));
+}
+fn avro_soe_seq<const SEQ: u8>(r: &mut Runner, sink: GuardSink) {
+    use arrow_avro::writer::format::AvroSoeFormat;
+    let bs = seq_batches(SEQ, false);
+    let Some(mut w) = r.step("new", || arrow_avro::writer::WriterBuilder::new(bs[0].schema().as_ref().clone()).build::<_, AvroSoeFormat>(sink)) else { return };
+    for (i, b) in bs.iter().enumerate() {
+        r.step(WRITE_STEPS[i], || w.write(b));
+    }
+    r.step("finish", || w.finish());
+    r.always("into_inner", move || Ok::<(), NoErr>(drop(w.into_inner())));
+}
+fn avro_ocf_seq<const SEQ: u8>(r: &mut Runner, sink: GuardSink) {
+    let bs = seq_batches(SEQ, false);
+    let Some(mut w) = r.step("new", || arrow_avro::writer::AvroWriter::new(sink, bs[0].schema().as_ref().clone())) else { return };
+    for (i, b) in bs.iter().enumerate() {
+        r.step(WRITE_STEPS[i], || w.write(b));
+    }
+    r.step("finish", || w.finish());
+    r.always("into_inner", move || Ok::<(), NoErr>(drop(w.into_inner())));
+}
+
 pub fn cases() -> Vec<WriterCase> {
     vec![
         WriterCase { name: "ipc-file-writer", deterministic: true, run: ipc_file },
@@ -438,6 +532,25 @@ pub fn cases() -> Vec<WriterCase> {
         WriterCase { name: "ipc-file-writer-lz4", deterministic: true, run: ipc_file_lz4 },
         WriterCase { name: "parquet-arrow-writer-snappy", deterministic: true, run: parquet_arrow_snappy },
         WriterCase { name: "avro-ocf-writer-deflate", deterministic: false, run: avro_ocf_deflate },
+        WriterCase { name: "csv-writer-empty-only", deterministic: true, run: csv_seq::<1> },
+        WriterCase { name: "csv-writer-empty-first", deterministic: true, run: csv_seq::<2> },
+        WriterCase { name: "csv-writer-empty-last", deterministic: true, run: csv_seq::<3> },
+        WriterCase { name: "csv-writer-close-empty-only", deterministic: true, run: csv_seq_close::<1> },
+        WriterCase { name: "csv-writer-close-empty-last", deterministic: true, run: csv_seq_close::<3> },
+        WriterCase { name: "json-line-delimited-writer-empty-only", deterministic: true, run: json_lines_seq::<1> },
+        WriterCase { name: "json-line-delimited-writer-empty-first", deterministic: true, run: json_lines_seq::<2> },
+        WriterCase { name: "json-array-writer-empty-only", deterministic: true, run: json_array_seq::<1> },
+        WriterCase { name: "json-array-writer-empty-first", deterministic: true, run: json_array_seq::<2> },
+        WriterCase { name: "json-array-writer-empty-last", deterministic: true, run: json_array_seq::<3> },
+        WriterCase { name: "ipc-stream-writer-empty-only", deterministic: true, run: ipc_stream_seq::<1> },
+        WriterCase { name: "ipc-stream-writer-empty-first", deterministic: true, run: ipc_stream_seq::<2> },
+        WriterCase { name: "ipc-file-writer-empty-only", deterministic: true, run: ipc_file_seq::<1> },
+        WriterCase { name: "ipc-file-writer-empty-last", deterministic: true, run: ipc_file_seq::<3> },
+        WriterCase { name: "parquet-arrow-writer-empty-only", deterministic: true, run: parquet_arrow_seq::<1> },
+        WriterCase { name: "parquet-arrow-writer-empty-first", deterministic: true, run: parquet_arrow_seq::<2> },
+        WriterCase { name: "avro-soe-writer-empty-only", deterministic: true, run: avro_soe_seq::<1> },
+        WriterCase { name: "avro-ocf-writer-empty-only", deterministic: false, run: avro_ocf_seq::<1> },
+        WriterCase { name: "avro-ocf-writer-empty-first", deterministic: false, run: avro_ocf_seq::<2> },
     ]
 }
 
